@@ -68,6 +68,42 @@ def sweep_impl(rep, tier, seed):
                                   and abs(fil.header.dm - hdr.dm) < 1e-12, "timing metadata (tsamp, tstart, dm) changed",
                                   function="header.py::Header.prep_outfile", input=inp,
                                   observed=[fil.header.tsamp, fil.header.tstart, fil.header.dm])
+        # ---- the depth requested through the header updates, and arrays that are not a whole number of bytes at packed depths
+        for in_bits, req in ((32, 8), (8, 32), (8, 16), (8, 2)):
+            nchans, nsamps = 8, 4
+            arr = rng.integers(0, 1 << min(req, 7), nchans * nsamps).astype(np.uint8)
+            inp = dict(header_nbits=in_bits, updates={"nbits": req}, nchans=nchans, nsamps=nsamps)
+            rep.case(("updates-nbits", in_bits, req), inp)
+            p = os.path.join(tmp, "u.fil")
+            upd = {"nbits": req}
+            try:
+                with base_header(nchans, in_bits, nsamps).prep_outfile(p, updates=upd) as w:
+                    w.cwrite(arr)
+            except (ValueError, TypeError):
+                continue
+            out = read_out(p)
+            rep.check(out["nbytes"] * 8 == nsamps * nchans * out["nbits"],
+                      "prep_outfile(updates={'nbits': n}): the data are not written at the depth the header declares",
+                      function="header.py::Header.prep_outfile", input=inp, observed=dict(declared=out["nbits"], data_bytes=out["nbytes"]))
+            rep.check(upd == {"nbits": req}, "prep_outfile modified the caller's updates dictionary", function="header.py::Header.prep_outfile",
+                      input=inp, observed=upd)
+        for nbits in (1, 2, 4):
+            f = 8 // nbits
+            for extra in range(1, f):
+                total = 0
+                p = os.path.join(tmp, "pb.fil")
+                inp = dict(nbits=nbits, block=f * 2 + extra, writes=3)
+                rep.case(("partial-byte", nbits, extra), inp)
+                try:
+                    with base_header(1, nbits, 0).prep_outfile(p, nbits=nbits) as w:
+                        for _ in range(3):
+                            w.cwrite(rng.integers(0, 1 << nbits, f * 2 + extra).astype(np.uint8))
+                            total += f * 2 + extra
+                except ValueError:
+                    continue  # refused: allowed by the property
+                out = read_out(p)
+                rep.check(out["nbytes"] * f == total, "cwrite silently dropped the samples of a trailing partial byte",
+                          function="fileio.py::FileWriter.cwrite", input=inp, observed=out["nbytes"] * f, required=total)
         # ---- block.to_file
         for nchans, nsamps in ((4, 7), (8, 1)):
             data = rng.normal(0, 5, (nchans, nsamps)).astype(np.float32)
